@@ -1,0 +1,39 @@
+//go:build verif
+
+// Verification hook (build tag `verif` only): exposes the unexported selection functions of
+// plugin_dispatcher.go so that the C13 correspondence harness drives the REAL getRemedies / getDiagnoses /
+// shouldDiagnose instead of repeating their five-line selection.  No behaviour change; not compiled in
+// production builds.
+package runner
+
+import (
+	"lunar/engine/config"
+	sharedConfig "lunar/shared-model/config"
+)
+
+func VerifGetRemedies(
+	method string,
+	url string,
+	policyTree *config.EndpointPolicyTree,
+	globalPolicies *sharedConfig.Global,
+) []config.ScopedRemedy {
+	return getRemedies(method, url, policyTree, globalPolicies)
+}
+
+func VerifGetDiagnoses(
+	method string,
+	url string,
+	policyTree *config.EndpointPolicyTree,
+	globalDiagnoses []sharedConfig.Diagnosis,
+) []*config.ScopedDiagnosis {
+	return getDiagnoses(method, url, policyTree, globalDiagnoses)
+}
+
+func VerifShouldDiagnose(
+	method string,
+	url string,
+	policyTree *config.EndpointPolicyTree,
+	globalPolicies *sharedConfig.Global,
+) bool {
+	return shouldDiagnose(method, url, policyTree, globalPolicies)
+}
